@@ -1,6 +1,6 @@
 // SPDX-License-Identifier: MIT OR Apache-2.0
 
-use std::collections::HashSet;
+use std::collections::{BTreeSet, HashSet};
 use std::fmt::Display;
 use std::hash::Hash as StdHash;
 use std::str::FromStr;
@@ -328,6 +328,10 @@ where
     }
 
     async fn ready(&self, dependencies: &[ID]) -> Result<bool, Self::Error> {
+        // Dependencies are a set, the same id can occur more than once in the given list (for
+        // example when it was assembled from multiple pending rows).
+        let dependencies: BTreeSet<&ID> = dependencies.iter().collect();
+
         self.tx(async |tx| {
             let sql = format!(
                 "
